@@ -3,7 +3,9 @@ import json
 import os
 import time
 
-from .. import core
+from fractions import Fraction
+
+from .. import core, model, numth, planeb
 
 SRC = os.path.join(core.HARNESS, "vf_numth.cc")
 
@@ -29,9 +31,98 @@ def run_job(job):
     return label, "HANG", timeout
 
 
+def mag_literals(tier):
+    """integers N whose mag<N>() is reified at compile time (written as ONE literal, so the library itself factors it)"""
+    rnd = core.rng("c12mag", tier)
+    ns = set()
+    for k in range(1, 20):
+        ns |= {10 ** k, 7 * 10 ** k if 7 * 10 ** k < 2 ** 64 else 10, 10 ** k + 1, 6 ** min(k, 24)}
+    for k in range(1, 64):
+        ns |= {2 ** k, 2 ** k + 1, 2 ** k - 1, 3 * 2 ** k if 3 * 2 ** k < 2 ** 64 else 2}
+    f = 1
+    for k in range(2, 21):
+        f *= k
+        ns.add(f)
+    ns |= {2 ** 64 - 1, 2 ** 64 - 59, 2 ** 63 - 25, 2 ** 32 * (2 ** 32 - 5), 4294967291 * 4294967279, 65521 ** 4, 65537 ** 3, 3 ** 40, 5 ** 27, 7 ** 22, 1000000007 * 998244353,
+           547 * 569 * 727 * 1237, 2 ** 10 * 5 ** 10 * 3, 10 ** 10 * 4294967291, 10 ** 15 * 18446, 2147483647 ** 2}
+    pool = [2, 3, 5, 7, 11, 13, 101, 541, 547, 1009, 7919, 65521, 65537, 1000003, 2147483647, 4294967291]
+    for _ in range(120 if tier == "quick" else 1200):
+        n = 1
+        for _ in range(rnd.randint(1, 7)):
+            p = rnd.choice(pool)
+            if n * p < 2 ** 64:
+                n *= p
+        ns.add(n)
+    for _ in range(30 if tier == "quick" else 300):
+        ns.add(rnd.getrandbits(rnd.choice([20, 31, 40, 48])) | 1)
+    return sorted(n for n in ns if 1 < n < 2 ** 64)
+
+
+def run_mag_slice(chk, tier):
+    """mag<N>() is the canonical prime factorisation of N; mag<a>() * mag<b>() and mag<a*b>() are the same type (Plane B trace)"""
+    rnd = core.rng("c12mag2", tier)
+    ns = mag_literals(tier)
+    n_tu = 8 if tier == "quick" else 32
+    plans = []
+    for ti in range(n_tu):
+        stmts, entries = [], {}
+        sid = 1
+        for j, n in enumerate(ns[ti::n_tu]):
+            tag = f"g{ti}_{j}"
+            entries[tag] = ("lit", n)
+            stmts.append((sid, f'vfy::reify_mag<decltype(au::mag<{n}ull>())>("{tag}");'))
+            sid += 1
+        for j in range(12 if tier == "quick" else 40):
+            a, b = rnd.choice(ns), rnd.choice(ns)
+            if a * b >= 2 ** 64:
+                continue
+            tag = f"q{ti}_{j}"
+            entries[tag] = ("eq", a, b)
+            stmts.append((sid, f'vfy::reify_mag_eq<decltype(au::mag<{a}ull>() * au::mag<{b}ull>()), decltype(au::mag<{a * b}ull>())>("{tag}");'))
+            sid += 1
+        plans.append((ti, stmts, entries))
+    cfgs = [("G_O0", "c++14")] * n_tu
+    cfgs[0] = ("L_O0", "c++17")
+    results = core.pmap(lambda p: planeb.build_run(f"c12mag_{p[0]}", p[1], {}, cfgs[p[0]][0], cfgs[p[0]][1], extra_includes="#include <cstdint>"), plans)
+    judged = 0
+    refused = []
+    for (ti, stmts, entries), (events, rejected, md5, err) in zip(plans, results):
+        if err:
+            chk.fail_inconclusive(f"C12 magnitude TU {ti} failed: {err}")
+            continue
+        by_sid = {s_[0]: s_[1] for s_ in stmts}
+        for sid, msgs in rejected.items():
+            # "whenever it compiles": a refusal (e.g. the compiler's constexpr step limit on a hard N) is not a wrong factorisation;
+            # small N can be factored by the trial-division table alone and must compile
+            lit = [e for t_, e in entries.items() if f'("{t_}")' in by_sid[sid]]
+            refused.append(by_sid[sid][:120])
+            if lit and lit[0][0] == "lit" and lit[0][1] < 2 ** 32:
+                chk.violation(f"C12|mag_rejected|N={lit[0][1]}", msg=f"mag<{lit[0][1]}>() does not compile ({cfgs[ti][0]} {cfgs[ti][1]}): {msgs[0][:200]}")
+        for ev in events:
+            en = entries.get(ev.get("tag"))
+            if not en:
+                continue
+            judged += 1
+            if en[0] == "lit":
+                want = model.mag_of_fraction(Fraction(en[1]))
+                got = model.parse_mag_event(ev["mag"])
+                if model.ekey(got) != model.ekey(want):
+                    chk.violation(f"C12|mag_factorisation|N={en[1]}", msg=f"mag<{en[1]}>() is {model.ekey(got)}, the prime factorisation of N is {model.ekey(want)} ({cfgs[ti][0]} {cfgs[ti][1]})")
+            else:
+                _, a, b = en
+                if not ev["same_type"] or not ev["op_eq"] or ev["op_ne"]:
+                    chk.violation(f"C12|mag_product|a={a}|b={b}", msg=f"mag<{a}>() * mag<{b}>() vs mag<{a * b}>(): same_type={ev['same_type']} ==:{ev['op_eq']} !=:{ev['op_ne']}")
+    if judged < len(ns) // 2:
+        chk.fail_inconclusive(f"magnitude slice: only {judged} statements judged")
+    chk.notes["mag_literals_judged"] = judged
+    chk.notes["mag_literals_refused_by_compiler"] = refused[:10]
+    return judged
+
+
 def run(chk, which="C12"):
     tier = chk.tier
     quick = tier == "quick"
+    n_mag = run_mag_slice(chk, tier)
     flav = ["G_trap", "L_trap", "G_plain", "L_diag"]
     exes = dict(zip(flav, core.pmap(build, flav)))
     seed = core.sub_seed("c12") % (2 ** 62)
@@ -56,13 +147,15 @@ def run(chk, which="C12"):
         jobs.append((exes["L_diag"], ["adv", i, n // 2, 0, seed + 1], 900, f"adv{i}@L_diag"))
     for i in range(n):
         jobs.append((exes["G_plain"], ["falsesq", i, n, 14 if quick else 20], 900, f"falsesq{i}@G_plain"))
+    for i in range(n):
+        jobs.append((exes["G_trap"], ["multi", i, n, 40000 if quick else 1500000, seed + 300], 900 if quick else 7200, f"multi{i}@G_trap"))
     cnt = 2 ** 20 if quick else 2 ** 24
     for i in range(n // 2):
         jobs.append((exes["L_trap"], ["mod", cnt, seed + 100 + i], 900, f"mod{i}@L_trap"))
         jobs.append((exes["G_trap"], ["mod", cnt, seed + 200 + i], 900, f"mod{i}@G_trap"))
     results = core.pmap(run_job, jobs)
-    core.reach(chk, SRC, [["sieve", 0, 300000, 150000], ["adv", 0, 64, 0, seed], ["falsesq", 0, 64, 10], ["mod", 30000, seed]], is_file=True)
-    tot = {"sieve": 0, "adv": 0, "falsesq": 0, "mod": 0}
+    core.reach(chk, SRC, [["sieve", 0, 300000, 150000], ["adv", 0, 64, 0, seed], ["falsesq", 0, 64, 10], ["mod", 30000, seed], ["multi", 0, 1, 3000, seed]], is_file=True)
+    tot = {"sieve": 0, "adv": 0, "falsesq": 0, "mod": 0, "multi": 0}
     primes = composites = 0
     info = {"base2_strong_pseudoprimes_checked": 0, "adversarial_set_size": 0, "mul_mod_fast_path": 0, "mul_mod_recursive_path": 0,
             "false_square_candidates": 0, "false_square_hits": 0, "swept_below": top, "find_prime_factor_swept_below": fpf}
@@ -114,7 +207,7 @@ def run(chk, which="C12"):
                                  note="non-UB integer sanitizer report inside is_prime/find_prime_factor (recover build); aim a generator at it")
     if info["mul_mod_recursive_path"] == 0 or info["mul_mod_fast_path"] == 0:
         chk.fail_inconclusive("mul_mod: one of the two paths was never exercised")
-    chk.add_evals(sum(tot.values()), primes + min(composites, 10 ** 9))
+    chk.add_evals(sum(tot.values()) + n_mag, primes + min(composites, 10 ** 9))
     chk.cov["rule"] = ("evaluation = one call of is_prime / find_prime_factor / is_perfect_square / a modular helper on one input, compared with an independent oracle "
                        "(segmented sieve below the sweep bound, deterministic 12-base Miller-Rabin with 128-bit mulmod above it, 128-bit arithmetic for the helpers); "
                        "distinct_nontrivial = distinct n whose primality was judged (oracle primes + oracle composites)")
@@ -124,8 +217,9 @@ def run(chk, which="C12"):
     chk.notes["oracle_composites_seen"] = composites
     chk.assumptions += [
         "64-bit inputs above the sweep bound are sampled adversarially (neighbours of 2^k, semiprimes of primes next to 2^16/2^21/2^31/2^32, p(2p-1), p(3p-2), Chernick Carmichael numbers, squares, "
-        "known pseudoprimes, 2-adic 'false square' candidates, random), not enumerated; that BPSW has no 64-bit counterexample is literature, not something these runs establish",
+        "known pseudoprimes, 2-adic 'false square' candidates, products of 3-6 primes above the trial-division table, random), not enumerated; that BPSW has no 64-bit counterexample is literature, not something these runs establish",
         "strong Lucas pseudoprimes are covered only through the exhaustive sweep and the semiprime families (no independent Lucas implementation in the oracle)",
-        "mag<a>()*mag<b>() == mag<a*b>() type identity is checked in C11's magnitude trace, not here",
+        "mag<N>() written as one literal is reified at compile time for powers of ten/two and their neighbours, factorials, prime powers, products of pool primes and random odd numbers, and compared with an "
+        "independent factorisation; mag<a>()*mag<b>() vs mag<a*b>() type identity likewise (also in C11's magnitude trace)",
     ]
     return chk
